@@ -36,7 +36,7 @@ ASSEMBLERS = [
     ("pde/backends/scipy/operators/spherical_sym.py", "_get_laplace_matrix", "SphericalSymGrid", 1),
     ("pde/backends/scipy/operators/cylindrical_sym.py", "_get_laplace_matrix", "CylindricalSymGrid", 2),
 ]
-KINDS = {"D": "DirichletBC", "N": "NeumannBC", "M": "MixedBC", "C": "CurvatureBC", "P": "_PeriodicBC"}
+KINDS = {"D": "DirichletBC", "N": "NeumannBC", "M": "MixedBC", "C": "CurvatureBC", "P": "_PeriodicBC", "A": "_PeriodicBC"}  # A = anti-periodic (flip_sign)
 SIDE_COMBOS = [("D", "D"), ("N", "N"), ("M", "M"), ("C", "C"), ("D", "C"), ("C", "N"), ("N", "D")]
 
 
@@ -125,15 +125,17 @@ def make_bcs(ix, grid, n_axes, kinds_per_axis):
         sides = []
         for upper, kind in ((False, lo_k), (True, hi_k)):
             tag = f"{axis}{'h' if upper else 'l'}"
-            if kind == "P":
-                attrs = {"flip_sign": False}
+            if kind in ("P", "A"):
+                attrs = {"flip_sign": kind == "A"}
             elif kind == "M":
                 attrs = {"value": sp.Symbol(f"gamma_{tag}"), "const": sp.Symbol(f"beta_{tag}")}
             else:
                 attrs = {"value": sp.Symbol(f"v_{tag}")}
             sides.append(bc_model(ix, KINDS[kind], grid, axis, upper, 0, **attrs))
-        pair_cls = ix.cls(AXIS, "BoundaryPair")
-        axes.append(Model(f"bc_axis{axis}", {"grid": grid, "axis": axis, "low": sides[0], "high": sides[1]}, cls=pair_cls))
+        # the axis object is an instance of the class the package itself uses for this axis, so that overrides of
+        # get_sparse_matrix_data / set_ghost_cells in BoundaryPeriodic are seen
+        pair_cls = ix.cls(AXIS, "BoundaryPeriodic" if lo_k in ("P", "A") else "BoundaryPair")
+        axes.append(Model(f"bc_axis{axis}", {"grid": grid, "axis": axis, "low": sides[0], "high": sides[1], "periodic": lo_k in ("P", "A"), "flip_sign": lo_k == "A"}, cls=pair_cls))
     return Model(
         "bcs",
         {
@@ -605,6 +607,7 @@ def check_matrix_rows(rep: Report, ix, rule_mismatch: str = "C18.matrix-vs-stenc
             periodic_ok = gcls == "CartesianGrid" or (gcls == "CylindricalSymGrid" and axis == 1)
             if periodic_ok:
                 combos.append(("P", "P"))
+                combos.append(("A", "A"))
             per_axis_choices.append(combos)
         rows = []
         if n_axes == 1:
@@ -657,7 +660,47 @@ def check_matrix_rows(rep: Report, ix, rule_mismatch: str = "C18.matrix-vs-stenc
     rep.floor("matrix rows compared", n_rows, 500)
 
 
+def _check_errors_propagate(rep: Report, ix) -> None:
+    """"problems without a solution are reported as errors rather than returning a field": the compiled solver raises
+    when the residual test fails (check_residual_guard); in solve_poisson_equation no exception handler around the solver
+    call may complete normally -- every path through a handler must end in `raise`, otherwise the untouched result field
+    is returned as if it were a solution"""
+    from ..cfg_lite import all_paths
+
+    f = ix.func("pde/pdes/laplace.py", "solve_poisson_equation")
+    rep.saw("functions", f.ref)
+    tries = [t for t in ast.walk(f.node) if isinstance(t, ast.Try) and any(isinstance(c, ast.Call) and isinstance(c.func, ast.Name) and c.func.id == "solver" for st in t.body for c in ast.walk(st))]
+    if len(tries) != 1:
+        # no try at all means every error propagates
+        solver_calls = [c for c in ast.walk(f.node) if isinstance(c, ast.Call) and isinstance(c.func, ast.Name) and c.func.id == "solver"]
+        if not solver_calls:
+            raise AnalysisError(f"{f.ref}: call of the solver routine not found")
+        rep.oblige("solve_poisson_equation: solver errors propagate (no handler)", not tries, len(tries))
+        if tries:
+            raise AnalysisError(f"{f.ref}: several try blocks around the solver call")
+        return
+    n = 0
+    swallowed = []
+    for path, oc in all_paths(f.node):
+        if not path.in_handler:
+            continue
+        n += 1
+        if oc != "raise":
+            swallowed.append((oc, [("" if pol else "not ") + ast.unparse(t)[:50] for t, pol in path.tests]))
+    rep.oblige("solve_poisson_equation: every path through an exception handler of the solver call ends in raise", not swallowed, swallowed[:3])
+    for oc, tests in swallowed[:2]:
+        rep.violation(
+            "C18.error-swallowed",
+            f"{f.ref}::handler-completes",
+            f"a path through the exception handler around the solver call completes normally ({oc}) under {tests or 'no condition'}: the failure reported by the linear solver (residual test) is swallowed and "
+            "the untouched result field is returned as the solution of a problem that has none",
+            line=tries[0].handlers[0].lineno,
+        )
+    rep.floor("paths through the exception handlers of solve_poisson_equation", n, 2)
+
+
 def _check_tail(rep: Report, ix) -> None:
+    _check_errors_propagate(rep, ix)
     # solve_laplace_equation = Poisson with zero right-hand side
     fl = ix.func("pde/pdes/laplace.py", "solve_laplace_equation")
     rep.saw("functions", fl.ref)
